@@ -53,6 +53,9 @@ func ForLookup(addr string) (string, error) {
 	}
 
 	mbox = strings.ToLower(norm.NFC.String(mbox))
+	// Lower-casing can produce a sequence that has a precomposed form even
+	// though the upper-case one does not (J + U+030C -> U+01F0).
+	mbox = norm.NFC.String(mbox)
 
 	if domain == "" {
 		return mbox, nil
@@ -85,6 +88,7 @@ func CleanDomain(addr string) (string, error) {
 		return addr, err
 	}
 	uDomain = strings.ToLower(norm.NFC.String(uDomain))
+	uDomain = norm.NFC.String(uDomain)
 
 	if domain == "" {
 		return mbox, nil
